@@ -119,6 +119,10 @@ def gen_assign(rng):
             if rng.chance(0.5):
                 attrs['meta'] = {'k': 1}
 
+            if rng.chance(0.5):
+                # (keyword order: the valid one first)
+                attrs = {k: attrs[k] for k in reversed(list(attrs))}
+
             ops.append({'op': 'add_change', 'tree': tn, 'attrs': attrs})
         elif k < 18:
             bad = rng.choice(domgen.NON_ATTRS)
@@ -126,6 +130,9 @@ def gen_assign(rng):
 
             if rng.chance(0.5):
                 attrs['meta'] = {'k': 1}
+
+            if rng.chance(0.5):
+                attrs = {k: attrs[k] for k in reversed(list(attrs))}
 
             ops.append({'op': 'add_file', 'tree': tn, 'change': 0,
                         'attrs': attrs})
